@@ -48,7 +48,7 @@ func RunC10A(t *testing.T) {
 		nt := false
 		for _, blk := range a.Blocks {
 			for i, o := range blk.Txs {
-				if o.Kind == OpMsgAddAllowed {
+				if o.Kind == OpMsgAddAllowed && i < len(blk.Codes) {
 					labels["c10:A-signed-msg-add-allowed"]++
 					nt = true
 					if blk.Codes[i] == 0 {
@@ -153,6 +153,10 @@ func RunC18A(t *testing.T) {
 		}
 		for _, blk := range a1.Blocks {
 			for k := range blk.Txs {
+				if k >= len(blk.Codes) { // the block itself failed: reported by C07, not here
+					idx = -1 << 30
+					break
+				}
 				if idx < len(msgIdx) {
 					if blk.Codes[k] != 0 {
 						rejected[msgIdx[idx]] = true
